@@ -1,5 +1,6 @@
 import FeatModel.Model.Solver.Krylov
 import FeatModel.Model.Solver.BiCGStab
+import FeatModel.Model.Solver.Chebyshev
 /-
 A solver object is persistent: the convergence-control members (`State`) survive from one `apply()`/`correct()` to the
 next.  `runSession` threads that state through a sequence of solves on one object, exactly as the harness does with
@@ -9,9 +10,11 @@ namespace FeatModel.Solver
 
 inductive Kind where
   | pcg | rich | pcr | pmr | pcgnr | bicgstab
+  /-- Chebyshev with `fraction_min_ev = 1/2`; `omega` of `solveOne` is its `fraction_max_ev` -/
+  | cheb
   deriving DecidableEq, Repr
 
-variable {V α : Type} [Mul α] [Div α] [Neg α] [Zero α] [One α] [LE α] [LT α] [DecidableEq α] [DecidableLE α]
+variable {V α : Type} [Add α] [Mul α] [Div α] [Neg α] [Zero α] [One α] [LE α] [LT α] [DecidableEq α] [DecidableLE α]
   [DecidableLT α]
 
 /-- one `apply()` (`isApply`) or `correct()` call on a solver object whose control state is `prev` -/
@@ -24,6 +27,7 @@ def solveOne (k : Kind) (S : Sys V α) (c : Config α) (omega : α) (prev : Stat
   | .pmr => if isApply then pmrApply S c prev b else pmrCorrect S c prev x0 b
   | .pcgnr => if isApply then pcgnrApply S c prev b else pcgnrCorrect S c prev x0 b
   | .bicgstab => if isApply then bicgApply S c prev b else bicgCorrect S c prev x0 b
+  | .cheb => chebSolve S c prev S.v3 S.chebTol (1 / (1 + 1)) omega isApply x0 b
 
 /-- a session on one solver object: the state left by solve `k` is the state solve `k+1` starts from;
     `none` = the exact scalar aborted (division by zero) in some solve -/
